@@ -160,6 +160,27 @@ func RunC16(c *Ctx) {
 			if v1 != v2 || v1 != v3 {
 				c.Rec.Violate(cs, "Valid result depends on the scratch Buffer's prior contents", "Valid", fmt.Sprint(v1), fmt.Sprint(v2, v3))
 			}
+			// the two traversals with a declining handler (the machine walks every member itself and so
+			// uses the Buffer's stack most): nil vs a never-used Buffer vs dirty Buffers
+			for kind := 0; kind < 2; kind++ {
+				var res [4]string
+				var fresh rjson.Buffer
+				for bi, b := range []*rjson.Buffer{nil, &fresh, deepBuf, &longBuf} {
+					n := 0
+					var p int
+					var e error
+					if kind == 0 {
+						p, e = rjson.HandleArrayValues(d, rjson.ArrayValueHandlerFunc(func([]byte) (int, error) { n++; return 0, nil }), b)
+					} else {
+						p, e = rjson.HandleObjectValues(d, rjson.ObjectValueHandlerFunc(func(k, v []byte) (int, error) { n++; return 0, nil }), b)
+					}
+					res[bi] = fmt.Sprintf("p=%d ok=%v calls=%d", p, e == nil, n)
+				}
+				c.Rec.Evals(4)
+				if res[0] != res[1] || res[0] != res[2] || res[0] != res[3] {
+					c.Rec.Violate(cs, kindName[kind]+" result depends on the scratch Buffer's prior contents", kindName[kind], "(nil) "+res[0], fmt.Sprintf("(fresh) %s / (dirty) %s / (long-lived) %s", res[1], res[2], res[3]))
+				}
+			}
 		})
 
 		p0 := refmodel.SkipWS(d, 0)
